@@ -116,3 +116,63 @@ theorem decode_spec (sy dv st fn bl : Nat) (r w e : Bool)
   rw [a1, a2, a3, b1, b2, b3]
 
 end SecsModel.Proofs.SecsIHdr
+
+namespace SecsModel.Proofs.SecsIHdr
+open SecsModel SecsModel.Gen
+
+theorem be2_ofBe (a b : Nat) (ha : a < 256) (hb : b < 256) : be 2 (ofBe [a, b]) = [a, b] :=
+  be_ofBe [a, b] (by intro x hx; simp at hx; rcases hx with h | h <;> omega)
+
+/-- `decode` accepts every 10-byte string and `encode` gives the same ten bytes back: the header codec is a bijection
+between 10-byte strings and in-range headers. -/
+theorem encode_decode (bs : Bytes) (hl : bs.length = 10) (hb : AllBytes bs) :
+    ∃ h, SecsIHeader.decode bs = .ok h ∧ InRange h ∧ h.encode = .ok bs := by
+  match bs, hl with
+  | [a0, a1, a2, a3, a4, a5, a6, a7, a8, a9], _ =>
+    have h0 : a0 < 256 := hb a0 (by simp)
+    have h1 : a1 < 256 := hb a1 (by simp)
+    have h2 : a2 < 256 := hb a2 (by simp)
+    have h3 : a3 < 256 := hb a3 (by simp)
+    have h4 : a4 < 256 := hb a4 (by simp)
+    have h5 : a5 < 256 := hb a5 (by simp)
+    have h6 : a6 < 256 := hb a6 (by simp)
+    have h7 : a7 < 256 := hb a7 (by simp)
+    have h8 : a8 < 256 := hb a8 (by simp)
+    have h9 : a9 < 256 := hb a9 (by simp)
+    have u : Py.unpackBE [2, 1, 1, 2, 4] [a0, a1, a2, a3, a4, a5, a6, a7, a8, a9] =
+        .ok [((ofBe [a0, a1] : Nat) : Int), ((ofBe [a2] : Nat) : Int), ((ofBe [a3] : Nat) : Int), ((ofBe [a4, a5] : Nat) : Int),
+             ((ofBe [a6, a7, a8, a9] : Nat) : Int)] := by
+      simp [Py.unpackBE, Py.unpackFields]
+    have hd := decode_fields _ _ _ _ _ _ u
+    refine ⟨_, hd, ?_, ?_⟩
+    · have e0 : ofBe [a0, a1] = a0 * 256 + a1 := by simp [ofBe]
+      have e1 : ofBe [a2] = a2 := by simp [ofBe]
+      have e2 : ofBe [a3] = a3 := by simp [ofBe]
+      have e3 : ofBe [a4, a5] = a4 * 256 + a5 := by simp [ofBe]
+      have e4 : ofBe [a6, a7, a8, a9] = a6 * 16777216 + (a7 * 65536 + (a8 * 256 + a9)) := by simp [ofBe]
+      constructor <;> simp only [e0, e1, e2, e3, e4] <;> omega
+    · have e0 : ofBe [a0, a1] = a0 * 256 + a1 := by simp [ofBe]
+      have e1 : ofBe [a2] = a2 := by simp [ofBe]
+      have e2 : ofBe [a3] = a3 := by simp [ofBe]
+      have e3 : ofBe [a4, a5] = a4 * 256 + a5 := by simp [ofBe]
+      have e4 : ofBe [a6, a7, a8, a9] = a6 * 16777216 + (a7 * 65536 + (a8 * 256 + a9)) := by simp [ofBe]
+      rw [encode_nat _ _ _ _ _ _ _ _ (by rw [e4]; omega) (by omega) (by omega) (by rw [e2]; omega) (by omega)]
+      congr 1
+      simp only [specBytes]
+      have r0 : (ofBe [a0, a1] % 32768 + if decide (ofBe [a0, a1] / 32768 % 2 = 1) = true then 32768 else 0) = ofBe [a0, a1] := by
+        rw [e0]; split <;> rename_i hc <;> simp at hc <;> omega
+      have r1 : (ofBe [a2] % 128 + if decide (ofBe [a2] / 128 % 2 = 1) = true then 128 else 0) = ofBe [a2] := by
+        rw [e1]; split <;> rename_i hc <;> simp at hc <;> omega
+      have r3 : (ofBe [a4, a5] % 32768 + if decide (ofBe [a4, a5] / 32768 % 2 = 1) = true then 32768 else 0) = ofBe [a4, a5] := by
+        rw [e3]; split <;> rename_i hc <;> simp at hc <;> omega
+      rw [r0, r1, r3]
+      have b0 := be_ofBe [a0, a1] (by intro x hx; simp at hx; rcases hx with h | h <;> omega)
+      have b1 := be_ofBe [a2] (by intro x hx; simp at hx; omega)
+      have b2 := be_ofBe [a3] (by intro x hx; simp at hx; omega)
+      have b3 := be_ofBe [a4, a5] (by intro x hx; simp at hx; rcases hx with h | h <;> omega)
+      have b4 := be_ofBe [a6, a7, a8, a9] (by intro x hx; simp at hx; rcases hx with h | h | h | h <;> omega)
+      simp only [List.length_cons, List.length_nil] at b0 b1 b2 b3 b4
+      rw [b0, b1, b2, b3, b4]
+      rfl
+
+end SecsModel.Proofs.SecsIHdr
